@@ -426,3 +426,25 @@ def r11(ctx):
 
 
 RULES.append(("C15.R11", "T11/T2", "the application sequence number is a 4-bit counter wrapping 15 -> 0 (shared with C04.R12)", r11))
+
+
+def r12(ctx):
+    """'delivers every accepted fragment to the handler of the request': the custom handler of a user READ stays with the task for the
+    whole response series - nothing in the master's task code takes it out of its Option before the task completes."""
+    prog = ctx.prog
+    n = 0
+    for bd in prog.bodies_matching(r"^(<)?dnp3::master::tasks::"):
+        if "::test" in bd.path:
+            continue
+        for c in bd.calls():
+            cal = c.term.callee or c.term.declared or ""
+            if not re.search(r"option::Option(<.*>)?::(take|replace|take_if)$", cal) or not c.term.args or c.term.args[0].is_const():
+                continue
+            n += 1
+            e = ctx.sym(bd).call_expr(c.term)
+            ctx.check(not mentions_field(e[2][0], "custom_handler"), "custom-handler:kept@%s" % short(bd.path), "Option::take on %s" % expr_str(e[2][0])[:50], bd.where(c.idx), bad_detail="the request's custom read handler is taken out of the task on the first fragment: later fragments of the same response go to the association's default handler")
+    pr = prog.abody("master::tasks::ReadTask::process_response")
+    ctx.check(any(mentions_field(g.a, "custom_handler") for g in ctx.gi(pr).all_guards() if g.a is not None), "custom-handler:consulted", "ReadTask::process_response consults task.custom_handler", pr.where(line=pr.line))
+
+
+RULES.append(("C15.R12", "T5", "a READ's custom handler receives every fragment (it is never taken out of the task)", r12))
